@@ -404,6 +404,38 @@ def find_parser(an: Analysis) -> FunctionInfo:
     raise AnalysisError("bytecode parser generator (folding EXTENDED_ARG) not found")
 
 
+def parser_roles(pf: FunctionInfo):
+    """(offset loop variable, prefix counter) of the bytecode parser, by role."""
+    loop = next((n for n in pf.node.body if isinstance(n, ast.For)), None)
+    if loop is None or not isinstance(loop.target, ast.Name):
+        raise AnalysisError(f"{pf.qual}: main loop over the code units not recognised")
+    counter = None
+    for n in ast.walk(loop):
+        if isinstance(n, ast.AugAssign) and isinstance(n.op, ast.Add) and isinstance(n.target, ast.Name) and isinstance(n.value, ast.Constant) and n.value.value == 1:
+            counter = n.target.id
+    if counter is None:
+        raise AnalysisError(f"{pf.qual}: counter of code units per instruction not recognised")
+    return loop.target.id, counter
+
+
+def parser_offset_positions(pf: FunctionInfo):
+    """Positions in the yielded tuple of the first-unit offset and of the next offset (finite evaluation of the yielded expressions)."""
+    iv, cnt = parser_roles(pf)
+    y = [n for n in ast.walk(pf.node) if isinstance(n, ast.Yield) and isinstance(n.value, ast.Tuple)][0]
+    roles = {}
+    for pos, e in enumerate(y.value.elts):
+        e2 = inline_locals(pf.node, e)
+        try:
+            vals = [feval(e2, {iv: i, cnt: n}) for i, n in [(8, 3), (20, 1), (6, 2)]]
+        except Exception:
+            continue
+        if vals == [8 - 4, 20, 6 - 2]:
+            roles["first"] = pos
+        elif vals == [10, 22, 8]:
+            roles["next"] = pos
+    return roles, y
+
+
 def r025(an, rep):
     it, _ = an.interp("from_code")
     pf = find_parser(an)
@@ -420,18 +452,8 @@ def r025(an, rep):
     f, loop = cons
     if not (isinstance(loop.target, ast.Tuple) and len(loop.target.elts) == len(elts)):
         raise AnalysisError(f"{f.qual}: parser tuple is not unpacked position-wise")
-    # semantic roles of the yielded positions, by finite evaluation: i = offset of the opcode unit, n = units used
-    roles = {}
-    for pos, e in enumerate(elts):
-        e2 = inline_locals(pf.node, e)
-        try:
-            vals = [feval(e2, {"i": i, "n_args": n}) for i, n in [(8, 3), (20, 1), (6, 2)]]
-        except Exception:
-            continue
-        if vals == [8 - 4, 20, 6 - 2]:
-            roles["first"] = pos
-        elif vals == [10, 22, 8]:
-            roles["next"] = pos
+    # semantic roles of the yielded positions, by finite evaluation: offset of the opcode unit and units used so far
+    roles, _ = parser_offset_positions(pf)
     rep.add("R02.3", f"{pf.qual}::first/next offsets", set(roles) == {"first", "next"}, loc(pf.module, y),
             f"yields first offset = i - 2*(n_args-1) at position {roles.get('first')} and next offset = i + 2 at position {roles.get('next')}" if set(roles) == {"first", "next"}
             else f"parser does not yield both the first-unit offset (i - 2*(n_args-1)) and the next offset (i + 2): found {roles}")
